@@ -125,13 +125,19 @@ def cases(quick: bool):
                 if quick and z not in (1, "HW") and (n > 3 or (tot or 0) > 3):
                     continue
                 yield Case("RQ|0404", "get_schedule_fragment", (CTL, z, n, tot), {}, exp, legal, "frag" if legal else f"frag:n={min(n,2)},tot={'None' if tot is None else min(tot,2)}")
-    for z in (1, "HW"):
+    for z in (1, "HW", 0, 11, "0B", "FA", 0xFA):  # (every way the index may be given, as for the RQ)
         for n in range(0, 13):
             for tot in range(0, 13):
                 for frag in ("AA", "00" * 41, "AB" * 10):
                     legal = 1 <= n <= tot
                     exp = {"frag_number": n, "total_frags": tot, "frag_length": len(frag) // 2, "fragment": frag}
+                    if z in ("HW", "FA", 0xFA):
+                        exp["dhw_idx"] = None
+                    else:
+                        exp["zone_idx"] = idx_hex(z)
                     if quick and (n > 3 or tot > 4) and frag != "AA":
+                        continue
+                    if z not in (1, "HW") and (n > 3 or tot > 4 or frag != "AA"):
                         continue
                     yield Case(" W|0404", "set_schedule_fragment", (CTL, z, n, tot, frag), {}, exp, legal, "frag" if legal else "frag:illegal")
     # --- setters
